@@ -76,7 +76,7 @@ def _data_cell(rng, htype, spine, p_null=0.15, chords=True, rest_in_chord=0.03):
 
 def gen_doc(rng, *, kern_only=False, max_spines=4, splits=True, core=False, comments=True, measures=None,
             mid_signatures=True, opening_barline=None, final_barline=None, chords=True, free_headers=False,
-            hidden_barlines=False, force_clef=False, plain_acc=False, rest_in_chord=0.03, clef_in_split=0.0, nested=0.5, early_end=0.0, types=None, twins=0.15, bboxes=0.1, blanks=0.08):
+            hidden_barlines=False, force_clef=False, plain_acc=False, rest_in_chord=0.03, clef_in_split=0.0, nested=0.5, early_end=0.0, types=None, twins=0.15, bboxes=0.1, blanks=0.08, second_clef_row=0.0):
     """core=True: signatures only before the first measure, splits re-joined before the next barline (C08's core)"""
     g = GenDoc()
     tokens.PLAIN_ACC = plain_acc
@@ -151,6 +151,11 @@ def gen_doc(rng, *, kern_only=False, max_spines=4, splits=True, core=False, comm
     signature_rows(core)
     if bboxes and rng.random() < bboxes:
         bbox_row()
+    if second_clef_row and n >= 2 and rng.random() < second_clef_row:
+        # a second clef row before the first measure: null interpretations to the left, new clefs to the right
+        k0 = rng.randint(1, n - 1)
+        row(lambda i, sp, ht: Cell('*' if i < k0 or rng.random() < 0.3 else rng.choice(CLEFS), 'interp', sp, ht))
+        g.flags.add('second-clef-row')
     if rng.random() < 0.3 and not core:
         interp_row(TANDEM)
     # now and then a score without any measure (header, signatures, perhaps one barline, terminators)
